@@ -350,8 +350,8 @@ class Translation(CGAThing):
         elif len(args) == 1:
             arg = args[0]
             if isinstance(arg, MultiVector):
-                if arg.grades() == {1}:
-                    # we have vector
+                if arg.grades() <= {1}:
+                    # we have vector (the zero vector has no grades)
                     mv = 1 - self.cga.straight_up(arg)*self.cga.einf/2.
                 if arg.grades() == {0, 2}:
                     # we have ro tor
